@@ -3,6 +3,24 @@ families = correspondence families (harness `gen <fam>`) with quick-tier op coun
 monitor = number of monitor cases in the quick tier (harness `monitor <id>`)."""
 
 PROPS = {
+    "C10": {
+        "families": {"tx": 12000},
+        "br_monitor": 3000,
+        "assumptions": [
+            "the Instructions sysvar lists exactly the top-level instructions of the transaction and the runtime executes them in order, atomically (Solana runtime; reproduced by the harness: real sysvar serialization, snapshot/rollback)",
+            "programs on the allowed list (compute budget, Kamino, Drift, Jupiter, Titan, associated token) do not CPI into marginfi on the account in receivership; validate_instructions only sees top-level instructions (the source says so itself); start and end themselves are proved non-CPI (stack height + sysvar program id)",
+            "everything a handler checks besides the transaction shape (health, signer, balances) is an arbitrary oracle in the transaction theorems; the numeric end-of-bracket conditions (health not worse, not positive, premium <= max(5%, configured)) are checked through real dispatch by the bracket monitor using the program's own pulse_health valuation before/after, and are part of the risk-engine model of C04/C05",
+            "Anchor dispatches an instruction to the handler named by its 8-byte discriminator and enforces #[derive(Accounts)] constraints before the handler body",
+        ],
+    },
+    "C11": {
+        "families": {"tx": 12000},
+        "br_monitor": 3000,
+        "assumptions": [
+            "same runtime assumptions as C10 (Instructions sysvar, in-order atomic execution, Anchor dispatch)",
+            "the initial-margin check run by end_flashloan is the risk engine of C04 (an oracle here); that it is RUN, last, after the flag is cleared, is a theorem over the regenerated handler skeleton",
+        ],
+    },
     "C19": {
         "families": {"fees": 2400, "wrapper": 12000},
         "monitor": 150,
@@ -40,6 +58,7 @@ PROPS = {
     },
     "C08": {
         "families": {"signer": 3000},
+        "br_monitor": 1500,
         "monitor": 900,
         "ix_monitor": 3000,
         "assumptions": [
@@ -125,6 +144,18 @@ _NOTE = ("Trusted: Lean kernel; axioms propext/Classical.choice/Quot.sound only 
          "and by diffing model vs real code on generated operations. ")
 
 MANIFEST_TEXT = {
+    "C10": {
+        "text": "Machine-checked Lean 4 theorems on the transaction-shape model: valid_spec / bracket_shape (an accepted validate_instructions means: the running start is the unique start instruction of the transaction, everything before it is compute-budget or whitelisted, the LAST instruction is this program's matching end, only allowed programs appear and of this program only start/end/record-init/withdraw/repay (+integration withdraws), at top level, start not last); over EVERY transaction and EVERY behaviour of the non-structural checks: receivership_never_survives (no account is in receivership after a successful transaction), bracket_closed_by_matching_end (the last instruction is the matching end FOR THE SAME ACCOUNT and it executed), one_receivership_at_a_time; by decide over tables regenerated from the source: only start_receivership sets and only end_receivership clears the flag (scan of every function), account transfer refuses accounts in receivership / flash loan before copying the flag word, end_receivership has no early success return and clears flag and receiver after the health comparison, start evaluates the maintenance-health precondition before setting the flag, constraints (flag clear at start / set at end, receiver and risk-admin signatures). `tx` family: the REAL validate_instructions on generated transaction shapes with the real sysvar serialization (12k/run). Bracket monitor: real multi-instruction transactions through real dispatch (brackets + mutations, empty brackets, wrong ends, forbidden instructions, foreign programs): flags never survive, committed brackets have the demanded shape, start only when unhealthy, maintenance health no worse and not positive, premium <= 5%, rejected transactions leave the store unchanged.",
+        "design_ref": "DESIGN.md §4 C10",
+        "note": _NOTE,
+        "technique": "Lean 4 proof: list-induction spec of the introspection loops + invariant induction over whole transactions with arbitrary oracles + decide over source-generated flag-writer/skeleton/constraint tables; correspondence check on real validate_instructions; real-transaction bracket monitor",
+    },
+    "C11": {
+        "text": "Machine-checked Lean 4 theorems: start_requires_matching_end (check_flashloan_can_start accepts only at top level, only when the named index lies LATER in the transaction, holds this program's end_flashloan for the SAME account, and the account is not disabled / frozen / in receivership / already in a flash loan), start_not_via_cpi; over EVERY transaction and EVERY behaviour of the other checks: flashloan_never_survives (no account is flagged in-flash-loan after a successful transaction: invariant 'a set flag has its end still ahead'), end_enforces_health (every executed end_flashloan ran the initial-margin check, on an account that is not disabled/frozen/in receivership, and cleared the flag); by decide over regenerated tables: only start/end_flashloan write the flag, end clears the flag and then runs the health check as its last step, both need the authority's signature, the health check is skipped only inside check_account_init_health on the flag, liquidation / receivership / bankruptcy assessments refuse an account in a flash loan. `tx` family: the REAL check_flashloan_can_start on generated shapes (incl. short data panic, missing accounts, CPI). Bracket monitor: real flash-loan transactions through real dispatch with right/wrong end indices, nesting, missing ends, over-borrows repaid or not.",
+        "design_ref": "DESIGN.md §4 C11",
+        "note": _NOTE,
+        "technique": "Lean 4 proof: spec theorem of the start check + invariant induction over whole transactions with arbitrary oracles + decide over source-generated tables; correspondence check on real check_flashloan_can_start; real-transaction bracket monitor",
+    },
     "C19": {
         "text": "Machine-checked Lean 4 theorems: collect_exact (each of the three transfers is the whole-token part of min(bucket, liquidity still available), buckets fall by exactly what moved, total <= vault; with enough liquidity each bucket keeps exactly its fractional part); calc_emissions closed form R*floor(T*floor48(amount/10^d)/YEAR) hence zero at zero time/size/rate, monotone in each, never above the exact proportional amount; a claim moves a non-negative credit <= emissions_remaining from the pool to the position and nothing else; settle pays exactly the whole-token part; over EVERY history of claims, withdrawals, re-funding, user activity and new positions on any number of positions: remaining >= 0 and remaining + sum(outstanding) + paid = funded, so payouts never exceed funding (induction); by decide over tables regenerated from the source: only handle_bankruptcy/withdraw_insurance sign as the insurance-vault authority and only the two fee withdrawals as the fee-vault authority (scan of every function under instructions/), collect signs as the liquidity authority only and checks the fee ATA first, draw-downs need the group admin's signature, the permissionless sweep is bound to bank.fees_destination_account which only the admin sets, emission payouts need an authorised signer or pass the destination check first. `fees` family: the REAL collect instruction through real dispatch (SPL/Token-2022/transfer-fee mints) vs the model on generated buckets/liquidity; `wrapper` family: real claim/settle vs model; the C19 monitor substitutes every destination/vault/signer through real dispatch (all must be refused, store unchanged) and checks the pool equation and vault balance after every emissions step.",
         "design_ref": "DESIGN.md §4 C19",
@@ -150,7 +181,7 @@ MANIFEST_TEXT = {
         "technique": "Lean 4 proof: validation-completeness theorems on the configuration model; correspondence check; real-dispatch invariant monitor",
     },
     "C08": {
-        "text": "Machine-checked Lean 4 theorems by decide over the account-constraint table REGENERATED from all 78 #[derive(Accounts)] structs on every run: the 15 account-operating user instructions carry both signer-rule constraints against a Signer (receivership admits third parties only for withdraw/repay/integration withdraws); 4 more are bound by has_one = authority; every other struct with a mutable margin account is a named special case; 31 administrative instructions carry has_one = <the specific role> with the role a Signer; every existing bank / margin account is has_one-bound to the instruction's group (named permissionless cranks excepted); every vault is seeds- or has_one-bound to the bank, vault authorities and the fee state are PDAs. The signer rule itself is characterised by an iff theorem. The C08 monitor replays (instruction x 7 signer identities x frozen x receivership), single-account substitutions (foreign group/bank/account/vault/authority) and admin instructions x roles through REAL DISPATCH against an independent specification; rejected instructions must leave the store byte-identical.",
+        "text": "Machine-checked Lean 4 theorems by decide over the account-constraint table REGENERATED from all 78 #[derive(Accounts)] structs on every run: the 15 account-operating user instructions carry both signer-rule constraints against a Signer (receivership admits third parties only for withdraw/repay/integration withdraws); 4 more are bound by has_one = authority; every other struct with a mutable margin account is a named special case; 31 administrative instructions carry has_one = <the specific role> with the role a Signer; every existing bank / margin account is has_one-bound to the instruction's group (named permissionless cranks excepted); every vault is seeds- or has_one-bound to the bank, vault authorities and the fee state are PDAs. The signer rule itself is characterised by an iff theorem. The C08 monitor replays (instruction x 7 signer identities x frozen x receivership), single-account substitutions (foreign group/bank/account/vault/authority) and admin instructions x roles through REAL DISPATCH against an independent specification; rejected instructions must leave the store byte-identical. The receivership clause ('strictly inside an active receivership') is exercised by real [start .. end] transactions (incl. empty brackets) after each of which a stranger's withdraw/repay must be refused; that the flag cannot survive a transaction is C10's theorem receivership_never_survives.",
         "design_ref": "DESIGN.md §4 C08",
         "note": _NOTE,
         "technique": "Lean 4 proof: decide over the source-generated constraint table + signer-rule characterisation; real-dispatch authorization matrix",
